@@ -86,17 +86,27 @@ def install_tracer(interpret, oal):
         if tr is None or node is None:
             return orig(self, node, **kwargs)
         name = type(node).__name__
+        # the statistics are keyed by id(node): every registered node is PINNED for the life of the case, or the ids of
+        # the nodes of an earlier program of a session would be reused by a later one (and a stale entry would make
+        # this wrapper read a value it must not read)
+        pin = tr['pin']
         if isinstance(node, cond_parents):
             tr['cond'][id(node.expression)] = name[:-4].lower()
+            pin.append(node.expression)
         elif isinstance(node, where_parents):
             tr['cond'][id(node.where_clause)] = 'where'
+            pin.append(node.where_clause)
         if isinstance(node, oal.BinaryOperationNode) and node.operator == '%':
             tr['modops'][id(node.left)] = 'dividend'
             tr['modops'][id(node.right)] = 'divisor'
+            pin.append(node.left)
+            pin.append(node.right)
         if isinstance(node, oal.ForEachNode):
             tr['loops'][id(node.block)] = 0
+            pin.append(node.block)
         if isinstance(node, oal.WhileNode):
             tr['loops'][id(node.block)] = 0
+            pin.append(node.block)
         if id(node) in tr['loops']:
             tr['loops'][id(node)] += 1
         tr['exec'][name] = tr['exec'].get(name, 0) + 1
@@ -427,7 +437,7 @@ def run_impl(case):
     loader.input(_SCHEMA_SQL + G.population_sql(case['pop']), 'case')
     m = loader.build_metamodel(_xtuml.IntegerGenerator())
     before = sum(len(m.find_metaclass(c).storage) for c, _ in G.CLASSES)
-    tr = {'cond': {}, 'loops': {}, 'exec': {}, 'outcomes': {}, 'modops': {}, 'negmod': set()}
+    tr = {'cond': {}, 'loops': {}, 'exec': {}, 'outcomes': {}, 'modops': {}, 'negmod': set(), 'pin': []}
     _TR = tr
     raised = None
     label = 'case%s' % case.get('id')
